@@ -15,8 +15,17 @@
                ``force_liquid_default``.
   C16-ENV      ``RenderContext.get*``/``_resolve``/``parentloop`` construct missing values with
                ``self.env.undefined(...)`` (the configured type), never ``Undefined(...)``.
-Not decided: the first sentence (a strict render that succeeds equals the default render) —
-value level.
+  C16-RAWEQ    (first sentence) the only relaxed method whose answer differs between the default
+               type and ``FalsyStrictUndefined`` is ``__eq__`` (``Undefined() == None`` is true,
+               ``FalsyStrictUndefined() == None`` is false, and the other way round for
+               ``False``).  So no raw ``==`` / ``!=`` / ``in`` / ``.index`` / ``.count`` in code
+               reachable from ``render`` may see a possibly-undefined data value next to a
+               possibly nil / boolean / undefined one: either ``is_undefined`` excludes it on
+               that path or both operands were first unwrapped through ``__liquid__()`` (which
+               both types answer with ``None``).  Decided with the context-sensitive kind
+               inference of the exception-escape engine.
+Not decided: the rest of the first sentence (a strict render that succeeds equals the default
+render) — value level.
 """
 
 from __future__ import annotations
@@ -40,7 +49,7 @@ def _only_raises_undefined(fn) -> bool:
 
 def run(repo: Repo) -> Result:
     res = Result(PID)
-    res.rules = ["C16-STRICT", "C16-DEFAULT", "C16-FALSY", "C16-ENV", "C16-SWALLOW"]
+    res.rules = ["C16-STRICT", "C16-DEFAULT", "C16-FALSY", "C16-ENV", "C16-SWALLOW", "C16-RAWEQ"]
     res.explanation = "table agreement between Undefined's implicit-protocol methods and the strict subclasses' overrides"
     res.assumptions = ["the first sentence of the property (equal output on success) is value-level and not decided"]
     und = repo.cls(f"{U}.Undefined")
@@ -184,7 +193,121 @@ def run(repo: Repo) -> Result:
         )
     if n_h < 6:
         raise AnchorMissing(f"only {n_h} handlers that can catch UndefinedError found (routers in parser/template expected)")
+    _check_raweq(repo, res)
     return res
+
+
+def _is_unwrap_expr(e: ast.AST, nm: str) -> bool:
+    """``nm.__liquid__() if hasattr(nm, "__liquid__") else nm``"""
+    return (
+        isinstance(e, ast.IfExp)
+        and isinstance(e.test, ast.Call)
+        and callee_name(e.test) == "hasattr"
+        and len(e.test.args) == 2
+        and text(e.test.args[0]) == nm
+        and isinstance(e.test.args[1], ast.Constant)
+        and e.test.args[1].value == "__liquid__"
+        and text(e.body) == f"{nm}.__liquid__()"
+        and text(e.orelse) == nm
+    )
+
+
+def _is_unwrap_helper(fn: ast.AST) -> bool:
+    """a one-parameter function that returns ``p.__liquid__()`` when p has it and p otherwise"""
+    a = fn.args
+    ps = [x.arg for x in a.posonlyargs + a.args]
+    if len(ps) != 1:
+        return False
+    p = ps[0]
+    body = [s for s in fn.body if not (isinstance(s, ast.Expr) and isinstance(s.value, ast.Constant))]
+    if len(body) == 1 and isinstance(body[0], ast.Return) and body[0].value is not None:
+        return _is_unwrap_expr(body[0].value, p)
+    if len(body) == 2 and isinstance(body[0], ast.If) and isinstance(body[1], ast.Return) and text(body[1].value) == p and not body[0].orelse:
+        t = body[0].test
+        return (
+            isinstance(t, ast.Call) and callee_name(t) == "hasattr" and len(t.args) == 2 and text(t.args[0]) == p and isinstance(t.args[1], ast.Constant) and t.args[1].value == "__liquid__"
+            and len(body[0].body) == 1 and isinstance(body[0].body[0], ast.Return) and text(body[0].body[0].value) == f"{p}.__liquid__()"
+        )
+    return False
+
+
+def _unwrapped_names(repo: Repo, f) -> set[str]:
+    """names rebound through their own ``__liquid__()`` at the top level of the function, in any
+    of the spellings: ``if hasattr(x, "__liquid__"): x = x.__liquid__()``, the conditional
+    expression, or ``x = helper(x)`` with a helper that is exactly that unwrapping"""
+    fn = f.node
+    out = set()
+    for st in fn.body:
+        if isinstance(st, ast.If) and isinstance(st.test, ast.Call) and callee_name(st.test) == "hasattr" and len(st.test.args) == 2 and isinstance(st.test.args[0], ast.Name) and isinstance(st.test.args[1], ast.Constant) and st.test.args[1].value == "__liquid__" and not st.orelse:
+            nm = st.test.args[0].id
+            if len(st.body) == 1 and isinstance(st.body[0], ast.Assign) and len(st.body[0].targets) == 1 and isinstance(st.body[0].targets[0], ast.Name) and st.body[0].targets[0].id == nm and text(st.body[0].value) == f"{nm}.__liquid__()":
+                out.add(nm)
+        if isinstance(st, ast.Assign) and len(st.targets) == 1 and isinstance(st.targets[0], ast.Name):
+            nm = st.targets[0].id
+            if _is_unwrap_expr(st.value, nm):
+                out.add(nm)
+            elif isinstance(st.value, ast.Call) and len(st.value.args) == 1 and not st.value.keywords and text(st.value.args[0]) == nm:
+                r = repo.resolve_in(f.module, text(st.value.func)) if isinstance(st.value.func, (ast.Name, ast.Attribute)) else None
+                if r is not None and hasattr(r, "node") and isinstance(r.node, (ast.FunctionDef,)) and _is_unwrap_helper(r.node):
+                    out.add(nm)
+    return out
+
+
+def _check_raweq(repo: Repo, res: Result) -> None:
+    from ..engines.exc import Exc
+    from ..kinds import ALL
+
+    x = Exc(repo)
+    hits: dict[tuple, dict] = {}
+    n_seen = [0]
+    PARSE_MODS = ("liquid.stream", "liquid.parser", "liquid.lex", "liquid.token")
+    NBU = frozenset("NBU")
+
+    def hook(f, node, st, flow, key):
+        pairs = []
+        if isinstance(node, ast.Compare) and len(node.ops) == 1 and isinstance(node.ops[0], (ast.Eq, ast.NotEq, ast.In, ast.NotIn)):
+            pairs = [(node.left, node.comparators[0])]
+        elif isinstance(node, ast.Call) and isinstance(node.func, ast.Attribute) and node.func.attr in ("index", "count") and len(node.args) >= 1:
+            pairs = [(node.args[0], None)]
+        if not pairs or f.module.name.startswith(PARSE_MODS):
+            return
+        n_seen[0] += 1
+        a, b = pairs[0]
+        ka = flow.kinds_of(a, st)
+        kb = flow.kinds_of(b, st) if b is not None else NBU
+        bad = None
+        if "U" in ka and ka != ALL and kb & NBU:
+            bad = (a, ka, kb)
+        elif b is not None and "U" in kb and kb != ALL and ka & NBU and not isinstance(node.ops[0], (ast.In, ast.NotIn)):
+            bad = (b, kb, ka)
+        if bad is None:
+            return
+        unwrapped = _unwrapped_names(repo, f)
+        ops = [a] + ([b] if b is not None else [])
+        if all((isinstance(o, ast.Name) and o.id in unwrapped) or "U" not in flow.kinds_of(o, st) or flow.kinds_of(o, st) == ALL for o in ops):
+            return
+        hits.setdefault((f.qual, type(node.ops[0]).__name__ if isinstance(node, ast.Compare) else node.func.attr), {"node": node, "f": f, "kinds": ("".join(sorted(ka)), "".join(sorted(kb)))})
+
+    x.expr_hooks.append(hook)
+    x.run([(repo.own_method("liquid.template.BoundTemplate", "render"), {}), (repo.own_method("liquid.template.BoundTemplate", "render_async"), {})])
+    res.ob("raweq:comparisons-seen", max(n_seen[0], 1))
+    if n_seen[0] < 150 or len(x.summaries) < 400:
+        raise AnchorMissing(f"C16-RAWEQ saw only {n_seen[0]} comparisons in {len(x.summaries)} (function, context) summaries: the call graph from render is broken")
+    eqf = repo.func("liquid.builtin.expressions.logical._eq")
+    res.ob("raweq:_eq-unwraps")
+    if _unwrapped_names(repo, eqf) != {p for p in eqf.params()}:
+        res.add("C16-RAWEQ", eqf.qual, "unwrap", "_eq must rebind both operands through __liquid__() before comparing them (the undefined types answer None there): a raw == between an undefined and nil/false differs between Undefined and FalsyStrictUndefined", eqf.file, eqf.line)
+    for (fq, op), h in sorted(hits.items()):
+        f, node = h["f"], h["node"]
+        res.add(
+            "C16-RAWEQ",
+            fq,
+            f"raw-{op}",
+            f"{fq}: `{text(node)[:70]}` compares a possibly undefined value (kinds {h['kinds'][0]} vs {h['kinds'][1]}) with Python's raw equality: Undefined() == None is true but FalsyStrictUndefined() == None is false (and == False the other way round), so the render succeeds under both types with different output; test is_undefined() first or compare through __liquid__()",
+            f.file,
+            getattr(node, "lineno", f.line),
+        )
+    res.stats["raweq_comparisons_seen"] = n_seen[0]
 
 
 def selftest(repo: Repo):
@@ -208,6 +331,9 @@ def selftest(repo: Repo):
     ):
         out.append(v(f"strict-drops-{dunder}", P, sig, "", f"not-overridden:{dunder}"))
     out += [
+        v("has-drops-undefined-guard", "liquid/builtin/filters/array.py", "    if value is not None and not is_undefined(value):\n        return any((itm for itm in sequence if _getitem(itm, attr) == value))", "    if value is not None:\n        return any((itm for itm in sequence if _getitem(itm, attr) == value))", "C16-RAWEQ"),
+        v("extra-index-raw-equality", "liquid/extra/filters/array.py", "    if isinstance(obj, Undefined):\n        # Look for nil, whatever the undefined type. `Undefined` and\n        # `FalsyStrictUndefined` disagree about being equal to `None` and `False`.\n        obj = obj.__liquid__()\n\n", "", "C16-RAWEQ"),
+        v("eq-helper-no-unwrap", "liquid/builtin/expressions/logical.py", "def _eq(left: object, right: object) -> bool:\n    if hasattr(left, \"__liquid__\"):\n        left = left.__liquid__()\n\n", "def _eq(left: object, right: object) -> bool:\n", "C16-RAWEQ"),
         v("strict-bool-false", P, "    def __bool__(self) -> bool:\n        raise UndefinedError(self.msg, token=self.token)", "    def __bool__(self) -> bool:\n        return False", "does-not-raise:__bool__"),
         v("allow-len", P, '            "__repr__",\n            # "__class__",', '            "__repr__",\n            "__len__",', "C16-STRICT"),
         v("default-raises", P, "    def __len__(self) -> int:\n        return 0", "    def __len__(self) -> int:\n        raise TypeError('undefined')", "C16-DEFAULT"),
